@@ -264,7 +264,7 @@ Print Assumptions C05_fault_ready_removed_only.
 
 (* non-vacuity: two expired count files of one week, mode on *)
 Definition uf_W : bytes := s2b "2024-01-07"%string.
-Definition uf_cfg : ucfg := mkCfg (1705000000%Z, 0%Z) true None (s2b "/t/local/"%string).
+Definition uf_cfg : ucfg := mkCfg (1705000000%Z, 0%Z) true None (s2b "/t/local/"%string) 0%Z.
 Definition uf_cf1 : cfile := mkCF 1704153600%Z 1704585600%Z 0%N [(0%N, 1%Z)].
 Definition uf_cf2 : cfile := mkCF 1704240000%Z 1704585600%Z 1%N [(0%N, 2%Z)].
 Definition uf_a : bytes := s2b "a.v1.count"%string.
